@@ -521,6 +521,15 @@ func (a *apiWorld) genValid(t *rapid.T) httpReq {
 				body["vars"] = map[string]any{"min": json.Number(fmt.Sprint(rapid.IntRange(0, 100).Draw(t, "min")))}
 			}
 		}
+		if rapid.IntRange(0, 3).Draw(t, "undeclaredVar") == 0 {
+			// a variable the template does not declare is ignored
+			vars, _ := body["vars"].(map[string]any)
+			if vars == nil {
+				vars = map[string]any{}
+			}
+			vars[rapid.SampledFrom([]string{"adress", "x", ""}).Draw(t, "undeclared")] = rapid.SampledFrom([]any{"bank", json.Number("3"), nil, true}).Draw(t, "undeclaredValue")
+			body["vars"] = vars
+		}
 		if rapid.IntRange(0, 2).Draw(t, "params") == 0 {
 			body["params"] = map[string]any{"pageSize": json.Number(fmt.Sprint(rapid.IntRange(1, 5).Draw(t, "ps")))}
 		}
@@ -736,14 +745,25 @@ func (a *apiWorld) mutate(t *rapid.T, r httpReq) httpReq {
 			note("json delete %s", pathStr(p))
 		}
 	case "json-extra-field":
-		if m, ok := doc.(map[string]any); ok {
+		// an unknown key is added to one of the objects of the document (the root, a posting, the vars of a script or of a
+		// query template, a metadata map, ...)
+		var paths, objs []jsonPath
+		collectPaths(doc, nil, &paths)
+		for _, p := range paths {
+			if _, ok := getAt(doc, p).(map[string]any); ok {
+				objs = append(objs, p)
+			}
+		}
+		if len(objs) > 0 {
+			p := objs[rapid.IntRange(0, len(objs)-1).Draw(t, "object")]
 			c := map[string]any{}
-			for k, v := range m {
+			for k, v := range getAt(doc, p).(map[string]any) {
 				c[k] = v
 			}
-			c[rapid.SampledFrom([]string{"", "__proto__", "id", "postCommitVolumes", "reverted", "ledger", "é"}).Draw(t, "extraKey")] = hostileJSON[rapid.IntRange(0, len(hostileJSON)-1).Draw(t, "hostile")]
-			r.Body = mustJSON(c)
-			note("json extra field")
+			key := rapid.SampledFrom([]string{"", "__proto__", "id", "postCommitVolumes", "reverted", "ledger", "é", "adress", "x"}).Draw(t, "extraKey")
+			c[key] = hostileJSON[rapid.IntRange(0, len(hostileJSON)-1).Draw(t, "hostile")]
+			r.Body = mustJSON(setAt(doc, p, c, false))
+			note("json extra field %q in %s", key, pathStr(p))
 		}
 	case "json-truncate":
 		if len(r.Body) > 2 {
@@ -1189,6 +1209,9 @@ func c38Pinned() string {
 		{httpReq{Route: "v2 POST /_bulk script-stream", Method: "POST", Path: "/v2/l1/_bulk", Write: true, Partial: true, Headers: map[string]string{"Content-Type": "application/vnd.formance.ledger.api.v2.bulk+script-stream"}, Body: []byte("//script ik\nsend [USD/2 1] (\n source = @world\n destination = @bank\n)\n//end\n")}, 0},
 		{httpReq{Route: "v2 POST /_bulk script-stream", Method: "POST", Path: "/v2/l1/_bulk", Write: true, Partial: true, Headers: map[string]string{"Content-Type": "application/vnd.formance.ledger.api.v2.bulk+script-stream"}, Body: []byte("//script\n//end\n")}, 0},
 		{httpReq{Route: "v2 POST /transactions", Method: "POST", Path: "/v2/l1/transactions", Write: true, Body: []byte(`{"script":{"plain":"vars {\n number $n\n}\nsend [USD/2 1] (\n source = @world\n destination = @bank\n)\nset_tx_meta(\"n\", $n)","vars":{"n":"null"}}}`)}, 4},
+		// a query template run with a variable the template does not declare (ignored) and with a wrongly typed declared one
+		{httpReq{Route: "v2 POST /queries/{id}/run", Method: "POST", Path: "/v2/l1/queries/byAccount/run", Query: q("schemaVersion", "v1"), Body: []byte(`{"vars":{"acc":"bank","adress":null}}`)}, 2},
+		{httpReq{Route: "v2 POST /queries/{id}/run", Method: "POST", Path: "/v2/l1/queries/rich/run", Query: q("schemaVersion", "v1"), Body: []byte(`{"vars":{"min":{"a":1}}}`)}, 4},
 		{httpReq{Route: "v1 POST /transactions/{id}/metadata", Method: "POST", Path: "/l1/transactions/1/metadata", Write: true, Headers: map[string]string{"Idempotency-Key": "pin1"}, Body: []byte(`{"a":"b"}`)}, 2},
 		{httpReq{Route: "v1 POST /transactions/{id}/revert", Method: "POST", Path: "/l1/transactions/1/revert", Write: true, Headers: map[string]string{"Idempotency-Key": "pin1"}}, 4},
 	}
@@ -1227,10 +1250,10 @@ func TestC38(t *testing.T) {
 		"a request whose SQL falls outside the stand-in's subset is discarded and counted (skipped_unsupported_sql), never judged",
 		"type errors raised by PostgreSQL itself for well-formed SQL (e.g. text compared with bigint) are only seen where the stand-in models them")
 	defer st.Write(t)
-	if problem := c38Pinned(); problem != "" {
+	if problem := c38Pinned(); problem != "" && !stats.SkipPinned() {
 		t.Fatalf("VIOLATION[C38] (pinned request): %s", problem)
 	}
-	st.Set("pinned_requests", 37)
+	st.Set("pinned_requests", 39)
 	if known.IsOpen(FindingAPIBalanceNoAsset) && reproduceAPIBalanceNoAsset() {
 		fmt.Println(known.Line(FindingAPIBalanceNoAsset))
 		st.Known(known.Line(FindingAPIBalanceNoAsset))
